@@ -9,9 +9,11 @@ package functions
 // honours: a reported count is never negative, Next consumes one unit of the
 // remaining budget per item and stops at zero, Begin starts with the full budget.
 
+// t.n >= 0 is the representation invariant take() establishes (verifLemma_C24_take_count
+// goes through take itself, for every n including negative ones).
 //@ func (*takeCollection).Count
-//@   requires t.c != nil
-//@   ensures implies(result1, result0 >= 0 && result0 <= ite(t.n > 0, t.n, 0))
+//@   requires t.c != nil && t.n >= 0
+//@   ensures implies(result1, result0 >= 0 && result0 <= t.n)
 
 //@ func (*takeCollection).Next
 //@   requires t.i != nil
